@@ -868,3 +868,102 @@ fn replay(sub: &str, v: &Value) -> Result<Outcome, String> {
         _ => replay_as::<Scenario>(v, &run),
     }
 }
+
+// ---------------------------------------------------------------- coverage-guided tier
+
+/// Clamp a byte-decoded scenario (engine::bytesde) into exactly the domain of
+/// `strategy(TickClass::WholeMs)` (sub `whole-ms`):
+/// * tick: one of 1000/2000/3000/5000/7000/10 000/33 000/100 000/1 000 000 us or
+///   m*1000 us with m in 1..=50; `tick_sub_ns` stays 0 (sub-microsecond and
+///   fractional ticks belong to the `fractional` sub only);
+/// * epoch: 0 ..= (year 9999)*1000+999 ms plus 0..=999 999 ns (`epoch_strategy`:
+///   every branch is a subset of that box, and the box's last branch covers it);
+/// * seed, random_order: any; steps 4..=59;
+/// * 1..=4 hosts, `reg_after` < steps, 1..=3 tasks each in `task_strategy(!client, None)`:
+///   lengths 0..=120 or 1000 ms (Sleeps 1..=5, SleepUntil 1..=4 entries), Interval
+///   period 1..=40 x 1..=6 ticks, Timeouts 1..=3 pairs (limit 1..=30, inner 0..=30),
+///   Finish (0..=2 entries of 0..=10 ms) only on hosts, never on clients;
+/// * 0..=4 controller entries (at < steps, host index < number of hosts), stably
+///   sorted by `at` as the generator does.
+pub fn fuzz_sanitize(sc: &mut Scenario) -> bool {
+    const TICKS_US: [u64; 9] = [1000, 2000, 3000, 5000, 7000, 10_000, 33_000, 100_000, 1_000_000];
+    let t = sc.tick_us % 59;
+    sc.tick_us = if t < 9 { TICKS_US[t as usize] } else { (t - 8) * 1000 };
+    sc.tick_sub_ns = 0;
+    sc.epoch_ms %= EPOCH_MAX_S * 1000 + 1000;
+    sc.epoch_sub_ns %= 1_000_000;
+    sc.steps = 4 + sc.steps % 56;
+    let steps = sc.steps;
+    // dur_strategy(None): 0..=12 | 13..=120 | 1000
+    let dur = |d: &mut u64| {
+        let x = *d % 122;
+        *d = if x == 121 { 1000 } else { x };
+    };
+    sc.hosts.truncate(4);
+    if sc.hosts.is_empty() {
+        sc.hosts.push(HostSpec { client: false, reg_after: 0, tasks: Vec::new() });
+    }
+    for h in sc.hosts.iter_mut() {
+        // generator: 3/4 registered before the first step, 1/4 anywhere below `steps`;
+        // the spare high bits of the decoded u32 make the same split
+        h.reg_after = if (h.reg_after >> 16) % 4 == 0 { h.reg_after % steps } else { 0 };
+        h.tasks.truncate(3);
+        if h.tasks.is_empty() {
+            h.tasks.push(Task::Sleeps(vec![0]));
+        }
+        for t in h.tasks.iter_mut() {
+            if h.client {
+                // task_strategy(host = false) has no Finish alternative
+                if let Task::Finish(v) = t {
+                    *t = Task::Sleeps(std::mem::take(v));
+                }
+            }
+            match t {
+                Task::Sleeps(v) => {
+                    v.truncate(5);
+                    if v.is_empty() {
+                        v.push(0);
+                    }
+                    v.iter_mut().for_each(dur);
+                }
+                Task::SleepUntil(v) => {
+                    v.truncate(4);
+                    if v.is_empty() {
+                        v.push(0);
+                    }
+                    v.iter_mut().for_each(dur);
+                }
+                Task::Interval(p, n) => {
+                    *p = 1 + *p % 40;
+                    *n = 1 + *n % 6;
+                }
+                Task::Timeouts(v) => {
+                    v.truncate(3);
+                    if v.is_empty() {
+                        v.push((1, 0));
+                    }
+                    for (limit, inner) in v.iter_mut() {
+                        *limit = 1 + *limit % 30;
+                        *inner %= 31;
+                    }
+                }
+                Task::Finish(v) => {
+                    v.truncate(2);
+                    for d in v.iter_mut() {
+                        *d %= 11;
+                    }
+                }
+            }
+        }
+    }
+    let n = sc.hosts.len();
+    sc.ctl.truncate(4);
+    for (at, c) in sc.ctl.iter_mut() {
+        *at %= steps;
+        match c {
+            Ctl::Crash(i) | Ctl::Bounce(i) => *i %= n,
+        }
+    }
+    sc.ctl.sort_by_key(|c| c.0);
+    true
+}
